@@ -126,6 +126,10 @@ class CallMixin:
 
     def eval_const_ast(self, val: ast.AST, owner_cls: str, st, fr) -> SV:
         ci = self.repo.classes[owner_cls]
+        if isinstance(val, ast.Call) and isinstance(val.func, ast.Name) and val.func.id == "template":
+            # jinja template objects are opaque: one constant per defining class and source position (text not modelled here)
+            self.used_assumptions.add("jinja2 templates are opaque values; Template.render is a deterministic function of template and kwargs (audited by the bounded rendering stand-in)")
+            return SV(z3.Const(f"TPL_{owner_cls}_{val.lineno}", self.voc.Val), "obj:Template")
         sub = Frame(fr.fi, None, owner_cls, kind=fr.kind)
         sub.fi = type("F", (), {"file": ci.file, "lineno": val.lineno if hasattr(val, "lineno") else 0, "key": ci.qual})()
         self.init_frame(sub)
@@ -215,7 +219,14 @@ class CallMixin:
             i = self.unbox(idx, "int").t
             n = v.slen(obj.t)
             self.may_raise(st, fr, "IndexError", z3.And(i >= -n, i < n), node, "index")
-            return self.with_sort(v.sat(obj.t, z3.If(i < 0, i + n, i)), self.elem_sort(node.value, fr))
+            isimp = z3.simplify(i)
+            if fr.kind == "spec" or (z3.is_int_value(isimp) and isimp.as_long() >= 0):
+                pos = i      # spec clauses index with non-negative positions only
+            elif z3.is_int_value(isimp):
+                pos = i + n
+            else:
+                pos = z3.If(i < 0, i + n, i)
+            return self.with_sort(v.sat(obj.t, pos), self.elem_sort(node.value, fr))
         if obj.pt == "str":
             i = self.unbox(idx, "int").t
             n = z3.Length(obj.t)
@@ -304,6 +315,7 @@ class CallMixin:
                 cur = v.sapp(cur, self.box(it))
             return SV(cur, "list", py=("items", items))
         seq = self.as_seq(src, st, fr, g.iter)
+        seq = SV(self.named(seq.t, st), seq.pt, seq.py)
         esort = self.elem_sort(g.iter, fr)
         e = self.fresh("elem")
         j0 = self.fresh("j", z3.IntSort())
@@ -357,6 +369,9 @@ class CallMixin:
 
     def bind_target(self, target, val: SV, st, fr, container=None):
         if isinstance(target, ast.Name):
+            if val.pt == "any" and val.t is not None and fr.contract is not None and fr.kind != "spec" \
+                    and target.id in getattr(fr.contract, "sorts", {}):
+                val = self.with_sort(val.t, fr.contract.sorts[target.id])
             st.env[target.id] = val
             return
         if isinstance(target, (ast.Tuple, ast.List)):
